@@ -129,6 +129,10 @@ class Harness:
         if self.contract.interp:
             ev.funcs.update(self.contract.interp(self, ev, env))
         bad = []
+        if self.contract.replay_py is not None:
+            bad = list(self.contract.replay_py(env))
+            return bad, {"inputs": {k: (v.tolist() if isinstance(v, np.ndarray) else v) for k, v in env.items() if not k.endswith("__post")},
+                         "outputs": {k: (v.tolist() if isinstance(v, np.ndarray) else v) for k, v in env.items() if k.endswith("__post") or k == "__ret"}}
         for lab, e in self.ensures:
             try:
                 ok = ev.ev(e)
